@@ -65,7 +65,14 @@ StepTags(k) ==
         runTags == (IF r.post.dead # <<>> THEN {Tag("run", "dead", "", "")} ELSE {})
                    \cup (IF r.issue # <<>> THEN {Tag("run", "issue", "", "")} ELSE {})
                    \cup (IF r.panics # <<>> THEN {Tag("run", "panic", "", "")} ELSE {})
-    IN IF ~WF(pre) \/ (r.c \notin DOMAIN pre.conns /\ r.cmd.verb # "!open")
+        (* a raw line (C05): only its effect is judged - the sender stays connected and registered, *)
+        (* nobody else loses a connection, no invariant breaks                                     *)
+        rawTags == (IF r.c \in DOMAIN pre.conns /\ r.c \notin DOMAIN obs.conns THEN {Tag("run", "closed", "", "")} ELSE {})
+                   \cup (IF \E d \in DOMAIN pre.conns : d # r.c /\ d \notin DOMAIN obs.conns THEN {Tag("run", "otherclosed", "", "")} ELSE {})
+                   \cup (IF r.c \in DOMAIN pre.conns /\ r.c \in DOMAIN obs.conns /\ pre.conns[r.c].authed /\ ~obs.conns[r.c].authed
+                         THEN {Tag("run", "unregistered", "", "")} ELSE {})
+    IN IF r.cmd.verb = "RAW" THEN runTags \cup rawTags \cup (InvTags(obs) \ InvTags(pre))
+       ELSE IF ~WF(pre) \/ (r.c \notin DOMAIN pre.conns /\ r.cmd.verb # "!open")
        THEN runTags \cup (InvTags(obs) \ InvTags(pre)) \cup {Tag("run", "skipped", "", "")}
        ELSE LET R == Apply(pre, r.c, r.cmd) IN
             runTags \cup StateTags(R.st, obs) \cup OutTagsFor(r.c, R.out, r.outs) \cup (InvTags(obs) \ InvTags(pre))
@@ -81,7 +88,7 @@ Report(k, tags) ==
                                                \/ (t.t = "out" /\ t.b = "EOF"))}
                  ELSE tags
         owners == {P \in AllProps : \E t \in tags2 : Owns(P, ctx, t)}
-        skipped == Tag("run", "skipped", "", "") \in tags
+        skipped == Tag("run", "skipped", "", "") \in tags \/ r.cmd.verb = "RAW"
         R == Apply(pre, r.c, r.cmd)
         exp == IF skipped THEN <<>> ELSE R.out
     IN PrintT(<<"MISMATCH", ToJson(
